@@ -756,9 +756,16 @@ def decorate_with_checker(func: CallableT) -> CallableT:
                 # Ideally, we would catch any exception here and strip the checkers from the traceback.
                 # Unfortunately, this can not be done in Python 3, see
                 # https://stackoverflow.com/questions/44813333/how-can-i-elide-a-function-wrapper-from-the-traceback-in-python-3
+
+                # The checks are suspended only while the contracts are evaluated. They are resumed during
+                # the invocation so that the recursive calls from the body of the function are checked as well.
+                _IN_PROGRESS.set(in_progress)
+
                 result = await func(*args, **kwargs)
 
                 if postconditions:
+                    _IN_PROGRESS.set(in_progress | {id_func})
+
                     resolved_kwargs["result"] = result
 
                     violation_error = await _assert_postconditions_async(
@@ -827,9 +834,16 @@ def decorate_with_checker(func: CallableT) -> CallableT:
                 # Ideally, we would catch any exception here and strip the checkers from the traceback.
                 # Unfortunately, this can not be done in Python 3, see
                 # https://stackoverflow.com/questions/44813333/how-can-i-elide-a-function-wrapper-from-the-traceback-in-python-3
+
+                # The checks are suspended only while the contracts are evaluated. They are resumed during
+                # the invocation so that the recursive calls from the body of the function are checked as well.
+                _IN_PROGRESS.set(in_progress)
+
                 result = func(*args, **kwargs)
 
                 if postconditions:
+                    _IN_PROGRESS.set(in_progress | {id_func})
+
                     resolved_kwargs["result"] = result
 
                     violation_error = _assert_postconditions(
